@@ -446,8 +446,13 @@ func bparam(fn *ssa.Function, i int) *ssa.Parameter {
 	if perm := paramPerm(fn); perm != nil && i < len(perm) {
 		return fn.Params[perm[i]]
 	}
+	if i < 0 || i >= len(fn.Params) {
+		return noParam // the parameter was dropped: equal to nothing
+	}
 	return fn.Params[i]
 }
+
+var noParam = &ssa.Parameter{}
 
 // bargs reorders the actual arguments of a call of callee (receiver included iff withRecv) into baseline order.
 func bargs[T any](callee *ssa.Function, args []T, withRecv bool) []T {
